@@ -661,6 +661,14 @@ def _sub(node, env, hook):
         new = type(node)(**kwargs)
         if hasattr(node, "lineno"):
             ast.copy_location(new, node)
+    if isinstance(new, ast.ListComp) and len(new.generators) == 1 and isinstance(new.generators[0].iter, (ast.Tuple, ast.List)) \
+            and 1 <= len(new.generators[0].iter.elts) <= 4 and not new.generators[0].ifs and isinstance(new.generators[0].target, ast.Name) \
+            and not any(isinstance(x, ast.Starred) for x in new.generators[0].iter.elts):
+        # a comprehension over what turned out to be a literal sequence on this path: the list of its instances
+        tgt = new.generators[0].target.id
+        elts = [_sub(new.elt, {tgt: x}, None) for x in new.generators[0].iter.elts]
+        n2 = ast.List(elts=elts, ctx=ast.Load())
+        return ast.copy_location(n2, new) if hasattr(new, "lineno") else n2
     if isinstance(new, ast.Call) and any(k.arg is None and isinstance(k.value, ast.Dict) for k in new.keywords):
         # f(**{'a': x, 'b': y})  ==  f(a=x, b=y): one spelling for keyword records
         kws, okk = [], True
@@ -679,6 +687,19 @@ def _sub(node, env, hook):
         kws = [k for k in b.keywords if not (k.arg is None and dotted(k.value) == "_pkw")] + list(new.keywords)
         n2 = ast.Call(func=b.func, args=args, keywords=kws)
         new = ast.copy_location(n2, new) if hasattr(new, "lineno") else n2
+    if isinstance(new, ast.Call) and isinstance(new.func, ast.Attribute) and isinstance(new.func.value, ast.Name) and new.func.value.id.strip("_") == "operator" and not new.keywords:
+        # operator.lt(a, b) reached by substitution (the function was passed as an argument): the operator expression it denotes
+        from .normalize import _CMP_OPS, _BIN_OPS, _UN_OPS
+        fnm = new.func.attr
+        rep = None
+        if fnm in _CMP_OPS and len(new.args) == 2:
+            rep = ast.Compare(left=new.args[0], ops=[_CMP_OPS[fnm]()], comparators=[new.args[1]])
+        elif fnm in _BIN_OPS and len(new.args) == 2:
+            rep = ast.BinOp(left=new.args[0], op=_BIN_OPS[fnm](), right=new.args[1])
+        elif fnm in _UN_OPS and len(new.args) == 1:
+            rep = ast.UnaryOp(op=_UN_OPS[fnm](), operand=new.args[0])
+        if rep is not None:
+            return ast.copy_location(rep, new) if hasattr(new, "lineno") else rep
     if isinstance(new, ast.Call):
         fn = new.func
         if isinstance(fn, ast.Lambda) and not new.keywords and len(fn.args.args) == len(new.args) \
@@ -791,6 +812,14 @@ def walk_path(path, params=(), init_env=None, kill_attr_on_call=None, prog=None,
             e.update(s.env)
         return e
 
+    def _scope_funcs():
+        out, sc = [], st_["scope"]
+        while sc is not None:
+            if sc.func is not None:
+                out.append(sc.func)
+            sc = sc.parent
+        return out
+
     def hook(newcall, rawcall):
         scope = st_["scope"]
         if inl is None or scope.func is None or not isinstance(rawcall, ast.Call):
@@ -820,9 +849,23 @@ def walk_path(path, params=(), init_env=None, kill_attr_on_call=None, prog=None,
                     benv[p_] = dfl[p_]
                 else:
                     return None
+        # free names of the helper body denote what they denote now, in the calling context, when the helper is a nested def of the function
+        # being walked (closure) or a method called on self (attribute paths rooted at self live in the shared heap)
+        outer = {}
+        nested_here = f.parent is not None and any(f.parent is sc for sc in _scope_funcs())
+        cur = cur_env()
+        if nested_here or (f.cls and scope.func is not None and scope.func.cls == f.cls):
+            for k_, v_ in cur.items():
+                root = k_.split(".")[0]
+                if root in benv or root in ps:
+                    continue
+                if nested_here or root == "self":
+                    outer[k_] = v_
+        env2 = dict(outer)
+        env2.update(benv)
         for s in body[:-1]:
-            benv[s.targets[0].id] = _sub(s.value, benv, None)
-        return _sub(body[-1].value, benv, None)
+            env2[s.targets[0].id] = _sub(s.value, env2, None)
+        return _sub(body[-1].value, env2, None)
 
     def S(expr):
         return subst(expr, cur_env(), hook)
@@ -905,8 +948,19 @@ def walk_path(path, params=(), init_env=None, kill_attr_on_call=None, prog=None,
         scope = st_["scope"]
         if k == "assign":
             value = s.value
-            record_calls(value, s)
             v = S(value)
+            if isinstance(value, ast.ListComp) and isinstance(v, ast.List):
+                # a comprehension over what is a literal sequence on this path was instantiated: its calls are those of the instances
+                for c in _calls_in_order(v):
+                    ce = CallEv(c, c, list(guards), s, counter[0])
+                    ce.prior = list(closed)
+                    ce.depth = _depth()
+                    ce.ctx = st_["scope"].func
+                    counter[0] += 1
+                    pf.calls.append(ce)
+                    pf.order.append(("call", ce))
+            else:
+                record_calls(value, s)
             targets = s.targets if isinstance(s, ast.Assign) else [s.target]
             for t in targets:
                 if isinstance(t, ast.Subscript):
